@@ -184,7 +184,7 @@ class Ctx:
         cases = list(cases)
         t = time.time()
         agg = Res()
-        if os.environ.get("VERIF_FAILFAST") and self.res.viol:
+        if os.environ.get("VERIF_FAILFAST") and self._unlisted_violation():
             # scratch runs against seeded changes only (tools/seed_*.sh): a violation has been found, later phases are skipped
             self.phases[phase] = {"cases": len(cases), "skipped": "VERIF_FAILFAST"}
             return agg
@@ -206,6 +206,11 @@ class Ctx:
         }
         self.res.merge(agg)
         return agg
+
+    def _unlisted_violation(self):
+        from . import findings
+        known = findings.load(self.pid)
+        return any(findings.match(known, v["key"]) is None for v in self.res.viol)
 
     # ------------------------------------------------------------------ finishing
     def finish(self):
